@@ -1,8 +1,451 @@
 import Isotp.Process
+import Isotp.Spec.Segment
+import Isotp.Proofs.Rx
 /-
-  C06 — property theorems (see DESIGN.md §6). Helper lemmas live in Isotp/Proofs.
+  C06 — "Reception anomalies raise the documented error and never poison the receiver."
+
+  Property theorems (see DESIGN.md §6). Helper lemmas live in Isotp/Proofs/Rx.lean.
+
+  One theorem per anomaly of `_process_rx` (model: `State.processRx`), each giving the exact events
+  appended to the log (newest first: `s'.log = … :: s.log`), the state consequences, and what happens to
+  the rx queue. The hypotheses speak about what the frame *decodes to*
+  (`decode m.data rxPrefixSize = some ⟨pdu, CAN_DL, RX_DL⟩`), so each theorem covers every frame of its class;
+  the `example`s instantiate them on concrete frames.
+  Then: deliveries are never partial, the invariant of the reception FSM, and recovery.
 -/
 namespace Isotp.C06
-open Isotp State
+open Isotp Isotp.State Isotp.Rx
+
+/-! ## The anomalies -/
+
+/-- Wrong sequence number while receiving: `WrongSequenceNumberError` (exactly that event), reception
+    aborted: idle, buffer dropped, timer stopped, pending Flow Control cancelled, nothing delivered. -/
+theorem wrong_sequence_number (s : State) (m : CanMsg) (sn : Nat) (data : Bytes) (cdl rdl : Nat)
+    (hd : decode m.data s.addr.rx.rxPrefixSize = some ⟨.cf sn data, cdl, rdl⟩) (hs : s.rxState = .waitCf)
+    (hsn : sn ≠ (s.lastSeq + 1) % 16) :
+    (s.processRx m).1.log = .err s.now .WrongSequenceNumber :: s.log ∧
+    (s.processRx m).1.rxState = .idle ∧ (s.processRx m).1.rxBuf = [] ∧
+    (s.processRx m).1.rxQueue = s.rxQueue ∧ (s.processRx m).1.timerCf.start = none ∧
+    (s.processRx m).1.pendingFc = false ∧ (s.processRx m).2 = (false, false) := by
+  rw [processRx_cf_wrongSn_eq s m sn data cdl rdl hd hs hsn]
+  exact ⟨rfl, rfl, rfl, rfl, rfl, rfl, rfl⟩
+
+/-- Consecutive Frame while idle: `UnexpectedConsecutiveFrameError`, frame ignored, still idle. -/
+theorem unexpected_consecutive_frame (s : State) (m : CanMsg) (sn : Nat) (data : Bytes) (cdl rdl : Nat)
+    (hd : decode m.data s.addr.rx.rxPrefixSize = some ⟨.cf sn data, cdl, rdl⟩) (hs : s.rxState = .idle) :
+    (s.processRx m).1.log = .err s.now .UnexpectedConsecutiveFrame :: s.log ∧
+    (s.processRx m).1.rxState = .idle ∧ (s.processRx m).1.rxBuf = s.rxBuf ∧
+    (s.processRx m).1.rxQueue = s.rxQueue ∧ (s.processRx m).1.pendingFc = s.pendingFc := by
+  rw [processRx_cf_idle_eq s m sn data cdl rdl hd hs]
+  exact ⟨rfl, hs, rfl, rfl, rfl⟩
+
+/-- A Flow Control frame never touches the reception FSM: it is only stored in the mailbox for the
+    transmit side (and an immediate transmit pass is requested). -/
+theorem flow_control_leaves_rx_alone (s : State) (m : CanMsg) (st bs stm cdl rdl : Nat)
+    (hd : decode m.data s.addr.rx.rxPrefixSize = some ⟨.fc st bs stm, cdl, rdl⟩) :
+    s.processRx m = ({ s with lastFc := some ⟨st, bs, stm⟩ }, true, false) :=
+  processRx_fc_eq s m st bs stm cdl rdl hd
+
+/-- `UnexpectedFlowControlError`: raised by the transmit side when the mailbox holds a Flow Control
+    and nothing is being transmitted; nothing else changes. -/
+theorem unexpected_flow_control (s : State) (fc : FcFrame) (h : s.txState = .idle) :
+    s.handleFc fc = { s with log := .err s.now .UnexpectedFlowControl :: s.log } :=
+  handleFc_idle s fc h
+
+/-- … at the level of a whole transmit pass (idle transmitter, empty queue): exactly that error is logged,
+    the mailbox is emptied, no frame is emitted and the reception side is untouched. -/
+theorem unexpected_flow_control_pass (s : State) (fc : FcFrame) (h1 : s.pendingFc = false)
+    (h2 : s.lastFc = some fc) (hst : fc.status ≠ 2)
+    (h3 : s.txState = .idle) (h4 : s.txQueue = []) (h5 : s.timerFc.timedOut s.now = false) :
+    s.processTx.1.log = .err s.now .UnexpectedFlowControl :: s.log ∧ s.processTx.1.lastFc = none ∧
+    s.processTx.2 = (none, false) ∧ RxSame s s.processTx.1 := by
+  refine ⟨?_, ?_, ?_, rxSame_processTx s⟩ <;> rw [processTx_unexpected_fc s fc h1 h2 hst h3 h4 h5]
+
+/-- Single Frame during a reception: the new message wins — its payload is delivered — then
+    `ReceptionInterruptedWithSingleFrameError`; the old partial message is dropped (idle, empty buffer,
+    timer stopped, pending Flow Control cancelled). -/
+theorem interrupted_with_single_frame (s : State) (m : CanMsg) (len : Nat) (data : Bytes) (esc : Bool)
+    (cdl rdl : Nat)
+    (hd : decode m.data s.addr.rx.rxPrefixSize = some ⟨.sf len data esc, cdl, rdl⟩)
+    (h8 : cdl ≤ 8 ∨ esc = true) (hs : s.rxState = .waitCf) :
+    (s.processRx m).1.log = .err s.now .InterruptedWithSingleFrame :: .deliver data :: s.log ∧
+    (s.processRx m).1.rxQueue = s.rxQueue ++ [data] ∧
+    (s.processRx m).1.rxState = .idle ∧ (s.processRx m).1.rxBuf = [] ∧
+    (s.processRx m).1.timerCf.start = none ∧ (s.processRx m).1.pendingFc = false := by
+  rw [processRx_sf_waitCf_eq s m len data esc cdl rdl hd h8 hs]
+  exact ⟨rfl, rfl, rfl, rfl, rfl, rfl⟩
+
+/-- First Frame during a reception: `ReceptionInterruptedWithFirstFrameError` and a fresh session for the
+    new message (old buffer replaced by the new First Frame's data, Flow Control ContinueToSend requested,
+    nothing delivered). For the First Frame of a well-formed stream this is `C03.ff_starts_session`. -/
+theorem interrupted_with_first_frame (s : State) (m : CanMsg) (len : Nat) (data : Bytes) (esc : Bool)
+    (cdl rdl : Nat)
+    (hd : decode m.data s.addr.rx.rxPrefixSize = some ⟨.ff len data esc, cdl, rdl⟩)
+    (hv : validTxDl rdl = true) (hl : len ≤ s.cfg.maxFrameSize) (hs : s.rxState = .waitCf) :
+    (s.processRx m).1.log = .err s.now .InterruptedWithFirstFrame :: s.log ∧
+    (s.processRx m).1.rxState = .waitCf ∧ (s.processRx m).1.rxBuf = data ∧
+    (s.processRx m).1.rxFrameLen = len ∧ (s.processRx m).1.lastSeq = 0 ∧ (s.processRx m).1.rxBlockCnt = 0 ∧
+    (s.processRx m).1.actualRxdl = some rdl ∧
+    (s.processRx m).1.pendingFc = true ∧ (s.processRx m).1.pendingFcStatus = some 0 ∧
+    (s.processRx m).1.rxQueue = s.rxQueue := by
+  rw [processRx_ff_ok_eq s m len data esc cdl rdl hd hv hl]
+  simp [hs]
+
+/-- … and when that First Frame starts a well-formed stream for `p`, the new session is the one of
+    `C03`: the interrupting message will be received intact. -/
+theorem interrupting_stream_wins (s : State) (m : CanMsg) (txDl : Nat) (pre p : Bytes)
+    (hpre : pre.length = s.addr.rx.rxPrefixSize) (htx : Spec.validTxDl txDl)
+    (hlen : p.length < 4294967296)
+    (hseg : Spec.ffRoom (Spec.streamCfg txDl pre) p.length < p.length)
+    (hmax : p.length ≤ s.cfg.maxFrameSize)
+    (hm : m.data = pre ++ Spec.ffHeader p.length ++ p.take (Spec.ffRoom (Spec.streamCfg txDl pre) p.length))
+    (hs : s.rxState = .waitCf) :
+    RxSession (Spec.streamCfg txDl pre) (s.processRx m).1 p 0 ∧
+    (s.processRx m).1.log = .err s.now .InterruptedWithFirstFrame :: s.log := by
+  refine ⟨ff_starts_session s m txDl pre p hpre htx hlen hseg hmax hm, ?_⟩
+  rw [ff_step_eq s m txDl pre p hpre htx hlen hseg hmax hm]
+  simp [hs]
+
+/-- Announced length above `max_frame_size` (receiver idle): `FrameTooLongError`, nothing is stored, the
+    receiver stays idle with the timer stopped, and a Flow Control with status Overflow (2) is requested. -/
+theorem frame_too_long (s : State) (m : CanMsg) (len : Nat) (data : Bytes) (esc : Bool) (cdl rdl : Nat)
+    (hd : decode m.data s.addr.rx.rxPrefixSize = some ⟨.ff len data esc, cdl, rdl⟩)
+    (hv : validTxDl rdl = true) (hl : len > s.cfg.maxFrameSize) (hs : s.rxState = .idle) :
+    (s.processRx m).1.log = .err s.now .FrameTooLong :: s.log ∧
+    (s.processRx m).1.rxState = .idle ∧ (s.processRx m).1.rxBuf = [] ∧
+    (s.processRx m).1.pendingFc = true ∧ (s.processRx m).1.pendingFcStatus = some 2 ∧
+    (s.processRx m).1.timerCf.start = none ∧ (s.processRx m).1.rxQueue = s.rxQueue ∧
+    (s.processRx m).2 = (true, false) := by
+  rw [processRx_ff_tooLong_eq s m len data esc cdl rdl hd hv hl]
+  simp [hs, Timer.stop]
+
+/-- the same during a reception: the interruption is reported too, and the old message is dropped -/
+theorem frame_too_long_interrupting (s : State) (m : CanMsg) (len : Nat) (data : Bytes) (esc : Bool)
+    (cdl rdl : Nat)
+    (hd : decode m.data s.addr.rx.rxPrefixSize = some ⟨.ff len data esc, cdl, rdl⟩)
+    (hv : validTxDl rdl = true) (hl : len > s.cfg.maxFrameSize) (hs : s.rxState = .waitCf) :
+    (s.processRx m).1.log = .err s.now .InterruptedWithFirstFrame :: .err s.now .FrameTooLong :: s.log ∧
+    (s.processRx m).1.rxState = .idle ∧ (s.processRx m).1.rxBuf = [] ∧
+    (s.processRx m).1.pendingFc = true ∧ (s.processRx m).1.pendingFcStatus = some 2 ∧
+    (s.processRx m).1.timerCf.start = none ∧ (s.processRx m).1.rxQueue = s.rxQueue := by
+  rw [processRx_ff_tooLong_eq s m len data esc cdl rdl hd hv hl]
+  simp [hs, Timer.stop]
+
+/-- The Overflow Flow Control that follows: the next transmit pass emits `[prefix] 32 BS STmin` (padded),
+    on the physical tx identifier, once. -/
+theorem overflow_flow_control (s : State) (hv : s.cfg.valid = true) (hl : s.cfg.listen = false)
+    (hp : s.pendingFc = true) (hst : s.pendingFcStatus = some 2) :
+    ∃ dlc, s.processTx.2 =
+      (some { id := s.addr.tx.txId .physical, ext := s.addr.tx.mode.is29,
+              data := Spec.padFrame (Spec.TxCfg.of s.cfg s.addr)
+                        (s.addr.tx.txPrefix ++ [0x32, u8 s.cfg.blocksize, u8 s.cfg.stmin]),
+              dlc := dlc, fd := s.cfg.canFd, brs := s.cfg.brs }, true) ∧
+      s.processTx.1.pendingFc = false ∧ s.processTx.1.timerCf = s.timerCf := by
+  obtain ⟨dlc, hfc⟩ := makeFlowControl_eq s.cfg s.addr 2 hv
+  have hb : s.cfg.blocksize ≤ 255 ∧ s.cfg.stmin ≤ 255 := by
+    simp only [Cfg.valid, Bool.and_eq_true, decide_eq_true_eq] at hv
+    exact ⟨hv.1.1.1.2, hv.1.1.1.1.2⟩
+  rw [fcData_overflow _ _ hb.1 hb.2] at hfc
+  refine ⟨dlc, ?_⟩
+  rw [processTx_sends_fc s 2 _ hp hst hl hfc]
+  exact ⟨rfl, rfl, by simp⟩
+
+/-- Undecodable frame (`PDU.__init__` raises): `InvalidCanDataError` and the reception in progress, if
+    any, is aborted (the code calls `_stop_receiving`): idle, empty buffer, nothing delivered. -/
+theorem invalid_can_data (s : State) (m : CanMsg)
+    (hd : decode m.data s.addr.rx.rxPrefixSize = none) :
+    (s.processRx m).1.log = .err s.now .InvalidCanData :: s.log ∧
+    (s.processRx m).1.rxState = .idle ∧ (s.processRx m).1.rxBuf = [] ∧
+    (s.processRx m).1.rxQueue = s.rxQueue ∧ (s.processRx m).1.timerCf.start = none ∧
+    (s.processRx m).1.pendingFc = false ∧ (s.processRx m).2 = (false, false) := by
+  rw [processRx_none_eq s m hd]
+  exact ⟨rfl, rfl, rfl, rfl, rfl, rfl, rfl⟩
+
+/-- classes of undecodable frames: no byte after the address prefix; unknown PCI type (high nibble ≥ 4);
+    Single Frame announcing more bytes than present; First Frame or Flow Control cut short -/
+theorem undecodable_classes (pre : Bytes) :
+    decode pre pre.length = none ∧
+    (∀ b : Bytes, 4 ≤ byteAt b 0 / 16 → decode (pre ++ b) pre.length = none) ∧
+    (∀ (n : Nat) (rest : Bytes), 1 ≤ n → n ≤ 15 → rest.length < n → decode (pre ++ u8 n :: rest) pre.length = none) ∧
+    (∀ b0 : UInt8, b0.toNat / 16 = 1 → decode (pre ++ [b0]) pre.length = none) ∧
+    (∀ b0 b1 : UInt8, b0.toNat / 16 = 3 → decode (pre ++ [b0, b1]) pre.length = none) := by
+  refine ⟨decode_short _ _ (Nat.le_refl _), fun b h => decode_unknown_type pre b h, ?_, ?_, ?_⟩
+  · intro n rest h1 h15 hr; rw [decode_prefix, decodeBody_sf_truncated n rest h1 h15 hr]; rfl
+  · intro b0 h; rw [decode_prefix, decodeBody_ff_truncated b0 h]; rfl
+  · intro b0 b1 h; rw [decode_prefix, decodeBody_fc_truncated b0 b1 h]; rfl
+
+/-- Single Frame in a CAN FD frame longer than 8 bytes without the escape sequence:
+    `MissingEscapeSequenceError`, frame ignored — the state (idle or receiving) is otherwise unchanged. -/
+theorem missing_escape_sequence (s : State) (m : CanMsg) (len : Nat) (data : Bytes) (cdl rdl : Nat)
+    (hd : decode m.data s.addr.rx.rxPrefixSize = some ⟨.sf len data false, cdl, rdl⟩) (h8 : cdl > 8) :
+    s.processRx m = ({ s with log := .err s.now .MissingEscapeSequence :: s.log }, false, false) :=
+  processRx_sf_noescape_eq s m len data cdl rdl hd h8
+
+/-- First Frame whose RX_DL is not a valid link-layer size (receiver idle):
+    `InvalidCanFdFirstFrameRXDL`, frame ignored, idle. -/
+theorem invalid_first_frame_rxdl (s : State) (m : CanMsg) (len : Nat) (data : Bytes) (esc : Bool) (cdl rdl : Nat)
+    (hd : decode m.data s.addr.rx.rxPrefixSize = some ⟨.ff len data esc, cdl, rdl⟩)
+    (hv : validTxDl rdl = false) (hs : s.rxState = .idle) :
+    (s.processRx m).1.log = .err s.now .InvalidCanFdFirstFrameRXDL :: s.log ∧
+    (s.processRx m).1.rxState = .idle ∧ (s.processRx m).1.rxBuf = [] ∧
+    (s.processRx m).1.rxQueue = s.rxQueue ∧ (s.processRx m).1.pendingFc = false ∧
+    (s.processRx m).2 = (false, false) := by
+  rw [processRx_ff_badRxdl_eq s m len data esc cdl rdl hd hv]
+  simp [hs]
+
+/-- the same during a reception: the interruption is reported too and the old message is dropped -/
+theorem invalid_first_frame_rxdl_interrupting (s : State) (m : CanMsg) (len : Nat) (data : Bytes) (esc : Bool)
+    (cdl rdl : Nat)
+    (hd : decode m.data s.addr.rx.rxPrefixSize = some ⟨.ff len data esc, cdl, rdl⟩)
+    (hv : validTxDl rdl = false) (hs : s.rxState = .waitCf) :
+    (s.processRx m).1.log =
+        .err s.now .InterruptedWithFirstFrame :: .err s.now .InvalidCanFdFirstFrameRXDL :: s.log ∧
+    (s.processRx m).1.rxState = .idle ∧ (s.processRx m).1.rxBuf = [] ∧
+    (s.processRx m).1.rxQueue = s.rxQueue := by
+  rw [processRx_ff_badRxdl_eq s m len data esc cdl rdl hd hv]
+  simp [hs]
+
+/-- In-sequence Consecutive Frame whose RX_DL differs from the First Frame's and is smaller than the
+    number of bytes still expected: `ChangingInvalidRXDLError`, frame ignored, session unchanged. -/
+theorem changing_invalid_rxdl (s : State) (m : CanMsg) (sn : Nat) (data : Bytes) (cdl rdl : Nat)
+    (hd : decode m.data s.addr.rx.rxPrefixSize = some ⟨.cf sn data, cdl, rdl⟩) (hs : s.rxState = .waitCf)
+    (hsn : sn = (s.lastSeq + 1) % 16)
+    (hne : s.actualRxdl ≠ some rdl) (hlt : rdl < s.rxFrameLen - s.rxBuf.length) :
+    s.processRx m = ({ s with log := .err s.now .ChangingInvalidRXDL :: s.log }, false, false) :=
+  processRx_cf_changingRxdl_eq s m sn data cdl rdl hd hs hsn hne hlt
+
+/-- … in particular a session survives it -/
+theorem changing_invalid_rxdl_keeps_session (g : Spec.TxCfg) (s : State) (m : CanMsg) (p : Bytes) (i : Nat)
+    (sn : Nat) (data : Bytes) (cdl rdl : Nat) (hsess : RxSession g s p i)
+    (hd : decode m.data s.addr.rx.rxPrefixSize = some ⟨.cf sn data, cdl, rdl⟩)
+    (hsn : sn = (s.lastSeq + 1) % 16)
+    (hne : s.actualRxdl ≠ some rdl) (hlt : rdl < s.rxFrameLen - s.rxBuf.length) :
+    RxSession g (s.processRx m).1 p i := by
+  rw [processRx_cf_changingRxdl_eq s m sn data cdl rdl hd hsess.state hsn hne hlt]
+  exact ⟨hsess.state, hsess.frameLen, hsess.buf, hsess.more, hsess.seq, hsess.blk, hsess.rxdl⟩
+
+/-- N_Cr timeout: `ConsecutiveFrameTimeoutError`, reception aborted, nothing delivered. -/
+theorem consecutive_frame_timeout (s : State) (h : s.timerCf.timedOut s.now = true) :
+    s.checkTimeoutsRx.log = .err s.now .ConsecutiveFrameTimeout :: s.log ∧
+    s.checkTimeoutsRx.rxState = .idle ∧ s.checkTimeoutsRx.rxBuf = [] ∧
+    s.checkTimeoutsRx.rxQueue = s.rxQueue := by
+  rw [checkTimeoutsRx_expired s h]
+  exact ⟨rfl, rfl, rfl, rfl⟩
+
+/-- `stop_receiving()`: idle, empty buffer, timer stopped, pending Flow Control cancelled; nothing is
+    delivered and nothing is logged. -/
+theorem stop_receiving_clears (s : State) :
+    s.stopReceiving.rxState = .idle ∧ s.stopReceiving.rxBuf = [] ∧ s.stopReceiving.timerCf.start = none ∧
+    s.stopReceiving.pendingFc = false ∧ s.stopReceiving.rxQueue = s.rxQueue ∧ s.stopReceiving.log = s.log :=
+  ⟨rfl, rfl, rfl, rfl, rfl, rfl⟩
+
+/-! ## Deliveries are whole messages -/
+
+/-- Whatever frame is processed, in a state satisfying the invariant, what gets delivered is: nothing; or
+    the payload of the Single Frame just received; or — only while receiving, on an in-sequence
+    Consecutive Frame — the completed buffer, whose length is exactly the announced message length and
+    which extends the bytes buffered so far. An aborted message (buffer emptied by the anomaly
+    theorems above) therefore never reaches the queue, in whole or in part. -/
+theorem never_partial (s : State) (m : CanMsg) (h : RxInv s) :
+    delivered (s.processRx m).1 = delivered s ∨
+    (∃ len data esc cdl rdl, decode m.data s.addr.rx.rxPrefixSize = some ⟨.sf len data esc, cdl, rdl⟩ ∧
+        delivered (s.processRx m).1 = delivered s ++ [data]) ∨
+    (∃ sn data cdl rdl q, decode m.data s.addr.rx.rxPrefixSize = some ⟨.cf sn data, cdl, rdl⟩ ∧
+        s.rxState = .waitCf ∧ delivered (s.processRx m).1 = delivered s ++ [q] ∧
+        q.length = s.rxFrameLen ∧ s.rxBuf <+: q) :=
+  processRx_deliver_cases s m h
+
+/-- the rx queue receives exactly what the log records as delivered -/
+theorem queue_matches_log (s : State) (m : CanMsg) :
+    ∃ l, (s.processRx m).1.rxQueue = s.rxQueue ++ l ∧ delivered (s.processRx m).1 = delivered s ++ l :=
+  processRx_queue_sync s m
+
+/-! ## Invariant and recovery -/
+
+/-- The invariant of the reception FSM (`RxInv`: idle ⇒ empty buffer and no RX_DL; receiving ⇒ buffer not
+    longer than the announced length, which is at most `max_frame_size`, and RX_DL known) holds initially
+    and is preserved by every operation: any received frame, transmit passes, timeout checks,
+    `stop_receiving`, `reset`, `send`, `recv`, clock. -/
+theorem invariant (c : Cfg) (a : Addr) :
+    RxInv (State.init c a) ∧
+    (∀ s m, RxInv s → RxInv (s.processRx m).1) ∧
+    (∀ s, RxInv s → RxInv s.processTx.1) ∧
+    (∀ s, RxInv s → RxInv s.checkTimeoutsRx) ∧
+    (∀ s : State, RxInv s.stopReceiving) ∧ (∀ s : State, RxInv s.reset) ∧
+    (∀ s x, RxInv s → RxInv (s.send x).1) ∧ (∀ s, RxInv s → RxInv s.recv.1) ∧
+    (∀ s dt, RxInv s → RxInv (s.advance dt)) :=
+  ⟨rxInv_init c a, rxInv_processRx, rxInv_processTx, rxInv_checkTimeoutsRx, rxInv_stopReceiving, rxInv_reset,
+   fun s x h => rxInv_of_same h (rxSame_send s x), fun s h => rxInv_of_same h (rxSame_recv s),
+   fun s dt h => rxInv_of_same h (rxSame_advance s dt)⟩
+
+theorem reachable_invariant (c : Cfg) (a : Addr) (s : State) (h : Reach c a s) :
+    RxInv s ∧ s.cfg = c ∧ s.addr = a := reach_inv h
+
+/-- Recovery. After ANY history (`Reach`: any sequence of received frames — garbage included —, transmit
+    passes, timeout checks, `stop_receiving()`, `reset()`, `send`, `recv`, clock advances), the next
+    well-formed message (`p.length ≤ max_frame_size`), with arbitrary reception-neutral steps in between,
+    is delivered intact, exactly once, and the receiver is idle afterwards. Nothing is delivered before
+    its last frame. (Immediate from `C03.stream_delivers_interleaved`, which holds from any state: the
+    First Frame / Single Frame handlers overwrite every field a previous reception may have left.) -/
+theorem recovery (c : Cfg) (a : Addr) (s s' : State) (hr : Reach c a s) (pre p : Bytes) (frames : List Bytes)
+    (hw : Spec.WellFormed pre p frames) (hpre : pre.length = a.rx.rxPrefixSize)
+    (hmax : p.length ≤ c.maxFrameSize) (hf : Feeds s frames s') :
+    delivered s' = delivered s ++ [p] ∧ s'.rxState = .idle :=
+  Rx.recovery c a s s' hr pre p frames hw hpre hmax hf
+
+theorem recovery_nothing_earlier (c : Cfg) (a : Addr) (s s'' : State) (hr : Reach c a s) (pre p : Bytes)
+    (frames fs rest : List Bytes)
+    (hw : Spec.WellFormed pre p frames) (hpre : pre.length = a.rx.rxPrefixSize)
+    (hmax : p.length ≤ c.maxFrameSize) (hsplit : frames = fs ++ rest) (hne : rest ≠ [])
+    (hf : Feeds s fs s'') : delivered s'' = delivered s := by
+  obtain ⟨_, hc, ha⟩ := reach_inv hr
+  exact wellFormed_nothing_earlier s s'' pre p frames fs rest hw (by rw [ha]; exact hpre) (by rw [hc]; exact hmax)
+    hsplit hne hf
+
+/-- Recovery, flow control part: from any reachable state the First Frame of the next well-formed
+    segmented message is answered by the next transmit pass with the ContinueToSend Flow Control
+    (configured blocksize and stmin, correctly addressed and padded). -/
+theorem recovery_flow_control (c : Cfg) (a : Addr) (s : State) (hr : Reach c a s) (m : CanMsg) (txDl : Nat)
+    (pre p : Bytes) (hv : c.valid = true) (hl : c.listen = false)
+    (hpre : pre.length = a.rx.rxPrefixSize) (htx : Spec.validTxDl txDl)
+    (hlen : p.length < 4294967296)
+    (hseg : Spec.ffRoom (Spec.streamCfg txDl pre) p.length < p.length)
+    (hmax : p.length ≤ c.maxFrameSize)
+    (hm : m.data = pre ++ Spec.ffHeader p.length ++ p.take (Spec.ffRoom (Spec.streamCfg txDl pre) p.length)) :
+    ∃ dlc, (s.processRx m).1.processTx.2 =
+      (some { id := a.tx.txId .physical, ext := a.tx.mode.is29,
+              data := Spec.padFrame (Spec.TxCfg.of c a) (a.tx.txPrefix ++ [0x30, u8 c.blocksize, u8 c.stmin]),
+              dlc := dlc, fd := c.canFd, brs := c.brs }, true) := by
+  obtain ⟨_, hc, ha⟩ := reach_inv hr
+  subst hc ha
+  obtain ⟨dlc, hfc⟩ := makeFlowControl_eq s.cfg s.addr 0 hv
+  have hb : s.cfg.blocksize ≤ 255 ∧ s.cfg.stmin ≤ 255 := by
+    simp only [Cfg.valid, Bool.and_eq_true, decide_eq_true_eq] at hv
+    exact ⟨hv.1.1.1.2, hv.1.1.1.1.2⟩
+  rw [fcData_cts _ _ hb.1 hb.2] at hfc
+  have heq := ff_step_eq s m txDl pre p hpre htx hlen hseg hmax hm
+  have hc : (s.processRx m).1.cfg = s.cfg := by rw [heq]
+  have ha : (s.processRx m).1.addr = s.addr := by rw [heq]
+  have hsend := processTx_sends_fc (s.processRx m).1 0 _ (by rw [heq]) (by rw [heq]) (by rw [hc]; exact hl)
+    (by rw [hc, ha]; exact hfc)
+  exact ⟨dlc, by rw [hsend]⟩
+
+/-! ## Non-vacuity: concrete frames -/
+
+def exHalf : Half :=
+  { mode := .n11, txid := some 0x123, rxid := some 0x456, ta := none, sa := none, ae := none,
+    physId := 0, funcId := 0, rxOnly := false, txOnly := false }
+def exAddr : Addr := { tx := exHalf, rx := exHalf }
+def s0 : State := State.init {} exAddr
+def exMsg (d : Bytes) : CanMsg := { id := 0x456, ext := false, data := d }
+
+/-- a reception in progress: First Frame announcing 20 bytes, 6 received -/
+def sRx : State := (s0.processRx (exMsg [0x10, 0x14, 1, 2, 3, 4, 5, 6])).1
+example : sRx.rxState = .waitCf ∧ sRx.rxBuf = [1, 2, 3, 4, 5, 6] ∧ sRx.lastSeq = 0 ∧ RxInv sRx := by
+  refine ⟨by decide, by decide, by decide, ⟨fun h => absurd h (by decide), fun _ => by decide⟩⟩
+
+-- wrong sequence number (2 instead of 1)
+example : decode (exMsg [0x22, 7, 8, 9]).data sRx.addr.rx.rxPrefixSize = some ⟨.cf 2 [7, 8, 9], 4, 8⟩ := by decide
+example : (sRx.processRx (exMsg [0x22, 7, 8, 9])).1.log = [.err 0 .WrongSequenceNumber] ∧
+    (sRx.processRx (exMsg [0x22, 7, 8, 9])).1.rxState = .idle ∧
+    (sRx.processRx (exMsg [0x22, 7, 8, 9])).1.rxBuf = [] := by decide
+-- Consecutive Frame while idle
+example : (s0.processRx (exMsg [0x21, 7, 8, 9])).1.log = [.err 0 .UnexpectedConsecutiveFrame] := by decide
+-- Flow Control: only the mailbox changes; then UnexpectedFlowControl from the transmit pass
+example : decode (exMsg [0x30, 0, 0]).data s0.addr.rx.rxPrefixSize = some ⟨.fc 0 0 0, 3, 8⟩ := by decide
+example : (sRx.processRx (exMsg [0x30, 0, 0])).1 = { sRx with lastFc := some ⟨0, 0, 0⟩ } := by
+  rw [flow_control_leaves_rx_alone sRx _ 0 0 0 3 8 (by decide)]
+example : (s0.processRx (exMsg [0x30, 0, 0])).1.processTx.1.log = [.err 0 .UnexpectedFlowControl] := by decide
+-- Single Frame interrupting
+example : (sRx.processRx (exMsg [0x02, 0xAA, 0xBB])).1.log =
+    [.err 0 .InterruptedWithSingleFrame, .deliver [0xAA, 0xBB]] ∧
+    (sRx.processRx (exMsg [0x02, 0xAA, 0xBB])).1.rxQueue = [[0xAA, 0xBB]] ∧
+    (sRx.processRx (exMsg [0x02, 0xAA, 0xBB])).1.rxBuf = [] := by decide
+-- First Frame interrupting: the new message wins
+example : (sRx.processRx (exMsg [0x10, 0x0A, 9, 9, 9, 9, 9, 9])).1.log = [.err 0 .InterruptedWithFirstFrame] ∧
+    (sRx.processRx (exMsg [0x10, 0x0A, 9, 9, 9, 9, 9, 9])).1.rxBuf = [9, 9, 9, 9, 9, 9] ∧
+    (sRx.processRx (exMsg [0x10, 0x0A, 9, 9, 9, 9, 9, 9])).1.rxFrameLen = 10 := by decide
+-- announced length 4096 > max_frame_size 4095 (escape form of the First Frame), then the Overflow FC `32 08 00`
+example : decode (exMsg [0x10, 0x00, 0x00, 0x00, 0x10, 0x00, 1, 2]).data s0.addr.rx.rxPrefixSize =
+    some ⟨.ff 4096 [1, 2] true, 8, 8⟩ := by decide
+example : (s0.processRx (exMsg [0x10, 0x00, 0x00, 0x00, 0x10, 0x00, 1, 2])).1.log = [.err 0 .FrameTooLong] ∧
+    (s0.processRx (exMsg [0x10, 0x00, 0x00, 0x00, 0x10, 0x00, 1, 2])).1.pendingFcStatus = some 2 ∧
+    (s0.processRx (exMsg [0x10, 0x00, 0x00, 0x00, 0x10, 0x00, 1, 2])).1.rxState = .idle := by decide
+example : (s0.processRx (exMsg [0x10, 0x00, 0x00, 0x00, 0x10, 0x00, 1, 2])).1.processTx.2 =
+    (some { id := 0x123, ext := false, data := [0x32, 8, 0], dlc := 3 }, true) := by decide
+-- undecodable: empty, unknown type, truncated
+example : decode (exMsg []).data 0 = none ∧ decode (exMsg [0x40, 1]).data 0 = none ∧
+    decode (exMsg [0x05, 1, 2]).data 0 = none ∧ decode (exMsg [0x10]).data 0 = none := by decide
+example : (sRx.processRx (exMsg [0x40, 1])).1.log = [.err 0 .InvalidCanData] ∧
+    (sRx.processRx (exMsg [0x40, 1])).1.rxState = .idle ∧ (sRx.processRx (exMsg [0x40, 1])).1.rxBuf = [] := by
+  decide
+-- missing escape sequence: 12-byte frame, length in the first nibble
+example : decode (exMsg [0x05, 1, 2, 3, 4, 5, 0, 0, 0, 0, 0, 0]).data 0 =
+    some ⟨.sf 5 [1, 2, 3, 4, 5] false, 12, 12⟩ := by decide
+example : (sRx.processRx (exMsg [0x05, 1, 2, 3, 4, 5, 0, 0, 0, 0, 0, 0])).1 =
+    { sRx with log := [.err 0 .MissingEscapeSequence] } := by
+  rw [missing_escape_sequence sRx _ 5 [1, 2, 3, 4, 5] 12 12 (by decide) (by decide)]; rfl
+-- First Frame in a 9-byte frame (RX_DL 9 is not a link-layer size)
+example : decode (exMsg [0x10, 0x14, 1, 2, 3, 4, 5, 6, 7]).data 0 = some ⟨.ff 20 [1, 2, 3, 4, 5, 6, 7] false, 9, 9⟩ := by
+  decide
+example : (s0.processRx (exMsg [0x10, 0x14, 1, 2, 3, 4, 5, 6, 7])).1.log = [.err 0 .InvalidCanFdFirstFrameRXDL] ∧
+    (s0.processRx (exMsg [0x10, 0x14, 1, 2, 3, 4, 5, 6, 7])).1.rxState = .idle := by decide
+-- changing RX_DL: First Frame with RX_DL 12 announcing 30 bytes, then an 8-byte Consecutive Frame
+def sRx12 : State := (s0.processRx (exMsg [0x10, 30, 1, 2, 3, 4, 5, 6, 7, 8, 9, 10])).1
+example : sRx12.actualRxdl = some 12 ∧ sRx12.rxFrameLen - sRx12.rxBuf.length = 20 := by decide
+example : (sRx12.processRx (exMsg [0x21, 11, 12, 13, 14, 15, 16, 17])).1 =
+    { sRx12 with log := [.err 0 .ChangingInvalidRXDL] } := by
+  rw [changing_invalid_rxdl sRx12 _ 1 [11, 12, 13, 14, 15, 16, 17] 8 8 (by decide) (by decide) (by decide)
+    (by decide) (by decide)]; rfl
+-- N_Cr timeout
+example : (sRx.advance 1000000001).timerCf.timedOut (sRx.advance 1000000001).now = true ∧
+    (sRx.advance 1000000001).checkTimeoutsRx.log = [.err 1000000001 .ConsecutiveFrameTimeout] ∧
+    (sRx.advance 1000000001).checkTimeoutsRx.rxState = .idle := by decide
+
+/-- recovery on a concrete history: garbage, an aborted reception, a timeout, `stop_receiving()`, then a
+    well-formed message is received intact and answered with `30 08 00` -/
+def sBad : State :=
+  ((((((s0.processRx (exMsg [0x40])).1.processRx (exMsg [0x10, 0x14, 1, 2, 3, 4, 5, 6])).1.processRx
+    (exMsg [0x23, 0, 0])).1.processRx (exMsg [0x10, 0x14, 1, 2, 3, 4, 5, 6])).1.advance 2000000000).checkTimeoutsRx
+    ).stopReceiving
+example : Reach {} exAddr sBad :=
+  .step (.step (.step (.step (.step (.step (.step .init (.rx _ _)) (.rx _ _)) (.rx _ _)) (.rx _ _)) (.advance _ _))
+    (.timeouts _)) (.stopReceiving _)
+def exP : Bytes := [1, 2, 3, 4, 5, 6, 7, 8, 9, 10]
+def exFrames : List Bytes := [[0x10, 0x0A, 1, 2, 3, 4, 5, 6], [0x21, 7, 8, 9, 10, 0xCC, 0xCC, 0xCC]]
+example : Spec.WellFormed [] exP exFrames :=
+  Or.inr (Or.inr ⟨8, [0xCC, 0xCC, 0xCC], [], [7, 8, 9, 10], by decide, by decide, by decide, by decide, by decide,
+    by decide, by decide⟩)
+example : (feed sBad (exFrames.map exMsg)).rxQueue = sBad.rxQueue ++ [exP] ∧ sBad.rxQueue = [] := by decide
+example : (sBad.processRx (exMsg [0x10, 0x0A, 1, 2, 3, 4, 5, 6])).1.processTx.2 =
+    (some { id := 0x123, ext := false, data := [0x30, 8, 0], dlc := 3 }, true) := by decide
 
 end Isotp.C06
+
+#print axioms Isotp.C06.wrong_sequence_number
+#print axioms Isotp.C06.unexpected_consecutive_frame
+#print axioms Isotp.C06.flow_control_leaves_rx_alone
+#print axioms Isotp.C06.unexpected_flow_control
+#print axioms Isotp.C06.unexpected_flow_control_pass
+#print axioms Isotp.C06.interrupted_with_single_frame
+#print axioms Isotp.C06.interrupted_with_first_frame
+#print axioms Isotp.C06.interrupting_stream_wins
+#print axioms Isotp.C06.frame_too_long
+#print axioms Isotp.C06.frame_too_long_interrupting
+#print axioms Isotp.C06.overflow_flow_control
+#print axioms Isotp.C06.invalid_can_data
+#print axioms Isotp.C06.undecodable_classes
+#print axioms Isotp.C06.missing_escape_sequence
+#print axioms Isotp.C06.invalid_first_frame_rxdl
+#print axioms Isotp.C06.invalid_first_frame_rxdl_interrupting
+#print axioms Isotp.C06.changing_invalid_rxdl
+#print axioms Isotp.C06.changing_invalid_rxdl_keeps_session
+#print axioms Isotp.C06.consecutive_frame_timeout
+#print axioms Isotp.C06.stop_receiving_clears
+#print axioms Isotp.C06.never_partial
+#print axioms Isotp.C06.queue_matches_log
+#print axioms Isotp.C06.invariant
+#print axioms Isotp.C06.reachable_invariant
+#print axioms Isotp.C06.recovery
+#print axioms Isotp.C06.recovery_nothing_earlier
+#print axioms Isotp.C06.recovery_flow_control
